@@ -18,6 +18,42 @@ if os.path.exists(na_file):
     NA_REASONS = json.load(open(na_file))
 
 CLAIMED = set(open(os.path.join(HERE, "tools", "claimed.txt")).read().split())
+P = "property-based testing (Hypothesis): "
+TECH = {
+ "C01": P + "round trip q->R->q + brute-force Wigner-Seitz reference model",
+ "C02": P + "differential (4 FFT back ends) against an explicit Fourier-sum reference, incl. call sequences on one object",
+ "C03": P + "differential between grid factorisations / FFT libraries of run()",
+ "C04": P + "metamorphic (k -> k+G; random unitary gauge in degenerate subspaces)",
+ "C05": P + "metamorphic (WF permutation, co-centred unitary rotation) + model-based check of reorder()",
+ "C06": P + "model-based testing of refinement histories (history encoded as data) with exact integer/Fraction oracle + exhaustive enumeration of grid lengths",
+ "C07": P + "differential irreducible+symmetrised vs full-grid run on symmetrised structure-library models",
+ "C08": P + "metamorphic k -> -k on models symmetric by construction, all calculators by reflection",
+ "C09": P + "algebraic laws against an exact integer-matrix / Fraction group reference",
+ "C10": P + "history invariant: from-scratch weighted sum over the current K list after every iteration (incl. restart-from-earlier histories)",
+ "C11": P + "differential uninterrupted vs segmented restarts with injected directory-listing orders",
+ "C12": P + "harness-owned scheduler model of ray.wait (fake ray), parallel vs serial differential",
+ "C13": P + "reference model of Fermi-sea bookkeeping + finite-difference and shared-run differentials",
+ "C14": P + "exact rational (Fraction) reference for tetrahedron volume fractions, permutation/order invariance",
+ "C15": P + "exact-Fraction reference partition of band multiplets",
+ "C16": P + "algebraic laws + save/load round trip",
+ "C17": P + "direct O(N^2) convolution reference + linearity laws",
+ "C18": P + "write/read round trips against the generated numpy model",
+ "C19": P + "write/read round trips (text and npz), container round trip",
+ "C20": P + "covariance oracle over all group elements + idempotence on a structure library",
+ "C21": P + "representation laws + first-principles evaluation of real harmonics",
+ "C22": P + "validity predicate (completeness, closure, whole shells by brute force, k+b=k'+G)",
+ "C23": P + "round trip mesh -> points -> detected mesh with integer ground truth",
+ "C24": P + "validity predicate on the gauge (orthonormality, frozen states in span, outer window) on synthetic overlap data",
+ "C25": P + "differential against own spin-orbit Hamiltonian assembly; Pauli algebra laws",
+ "C26": P + "affinity / endpoint laws, R by R, incl. repeated calls on one interpolator",
+ "C27": P + "sum rule + differential against a Fukui-Hatsugai-Suzuki Chern-number reference",
+ "C28": P + "differential sea vs surface formulations with calibrated discretisation margins and discrimination guard",
+ "C29": P + "reference path model + per-point differential of path tabulation",
+ "C30": P + "per-grid-point differential of tabulation + component algebra",
+ "C31": P + "differential numerical vs analytic derivatives with propagated error bounds",
+ "C32": P + "differential against source-model solvers and own Bloch sums",
+ "C33": P + "differential corner energies vs own eigenvalues at the corner k-points",
+}
 checks = []
 claimed = set()
 for f in sorted(glob.glob(os.path.join(HERE, "props", "c[0-9]*_*.py"))):
@@ -46,7 +82,7 @@ for f in sorted(glob.glob(os.path.join(HERE, "props", "c[0-9]*_*.py"))):
             design_ref=f"DESIGN.md section 4/{pid}"),
         level_note=getattr(mod, "LEVEL_NOTE", "; ".join(getattr(mod, "ASSUMPTIONS", [])) or
                            "trusted: numpy/scipy linear algebra, the harness oracle code in props/ and vlib/"),
-        technique=getattr(mod, "TECHNIQUE", "property-based testing (Hypothesis) against an explicit oracle"),
+        technique=getattr(mod, "TECHNIQUE", None) or TECH.get(pid, "property-based testing (Hypothesis) against an explicit oracle"),
     ))
 
 not_applicable = [dict(property_id=i, reason=NA_REASONS.get(i, "check not built yet in this round (planned in DESIGN.md section 4); not claimed"))
